@@ -292,6 +292,9 @@ def check_rerun(x, N, cfg1, cfg2):
 
 
 def replay(rep):
+    if rep.get('replay', {}).get('form') == 'routes':
+        from props import _estimators as E_
+        return E_.replay_routes(rep['replay'])
     if rep['replay'].get('protocol') == 'values_only':
         from props import _purity
         return _purity.replay_protocol(rep['replay'])
@@ -490,6 +493,9 @@ def error_branches(ctx):
 def run(ctx):
     rng = ctx.rng
     ctx.check_theorems('Properties/C19.v')
+    # the estimate an object holds does not depend on the history that gave it its data and settings (every route of _estimators.via)
+    from props import _estimators as E_
+    E_.class_route_stream(ctx, ['MultiTapering'], 'routes')
 
     cases, meta = corr_float(ctx, rng, ctx.q(72, 600))
     for i in ctx.coq_cases('c19_float', PRE_F, cases, shard=ctx.q(8, 12),
